@@ -124,6 +124,36 @@ def run(ctx, res):
                                        "match": {"op": "b64_decode"}})
             if model is not None and model[j] is not None and not same_outcome(c, model[j]):
                 res.disagreements.append({"why": "decode differs", "text": s, "code": c, "model": model[j]})
+    # --- values of several MiB (long certificate chains, largeBlob writes), sizes around 2^21 .. 2^24: above what the list-based
+    # model is asked, judged by the property's own predicates on the real code - alphabet, canonical length, round trip with
+    # and without padding. The value is derived from a short seed so that a replay stays small.
+    import hashlib
+    HUGE = [(1 << 21) - 1, 1 << 21, (1 << 21) + 1, (1 << 21) + 2, 3 * (1 << 20) + 1, (1 << 22) + 1] + ([] if ctx.quick() else [(1 << 23) + 5, (1 << 24) + 1])
+    for n in HUGE:
+        seed = rng.bytes_(8).hex()
+        b = hashlib.shake_256(bytes.fromhex(seed)).digest(n)
+        how = {"shake256_seed": seed, "len": n, "reproduce": f"hashlib.shake_256(bytes.fromhex('{seed}')).digest({n})"}
+        for form in (b, bytearray(b), memoryview(b)):
+            e = bytes_to_base64url(form)
+            res.evaluations += 1
+            res.count("huge")
+            problem = None
+            if not ALPHABET.match(e):
+                problem = "encoding leaves the url-safe alphabet"
+            elif len(e) != (4 * n + 2) // 3:
+                problem = f"encoding of {n} bytes has {len(e)} characters, not {(4 * n + 2) // 3}"
+            else:
+                for pad in ("", "=", "=="):
+                    c = code_decode(e + pad)
+                    res.evaluations += 1
+                    if c["k"] != "accept" or bytes.fromhex(c["record"]) != b:
+                        problem = f"decode(encode(b) + {pad!r}) != b ({c['k']}: {str(c.get('msg') or c.get('nonlib') or '')[:80]})"
+                        break
+            if problem:
+                res.violations.append({"why": problem + f" for a value of {n} bytes given as {type(form).__name__}", "input": how,
+                                       "encoded_head": e[:64], "encoded_len": len(e), "match": {"op": "b64_encode", "size": "huge"}})
+                break
+        res.nontrivial.add(("huge", n))
     # --- mutable byte-like inputs changed in place between two conversions: each conversion is of the bytes as they are now
     for k in range(40):
         buf = bytearray(rng.bytes_(rng.choice([1, 3, 16, 33])))
